@@ -23,6 +23,7 @@ pub const EXPRS: &[&str] = &[
     "length(`[1, 2, 3, 4, 5, 6, 7, 8, 9, 10, 11]`)",  // ... and a JSON literal with the same inner text
     "\"1\"",                            // a quoted identifier with the same inner text as the literal `1` and the raw string '1'
     "a.\"b",                             // failing compile inside the lexer: an unclosed delimiter with pending text
+    "{a: abs('x'), b: length(`1`), c: nosuch(@)}",  // three failing values: the first one in source order is reported, every time
 ];
 
 pub fn docs() -> Vec<Value> {
@@ -31,11 +32,12 @@ pub fn docs() -> Vec<Value> {
         json!({"a": [{"b": 2, "c": [1]}, {"b": 1}, {"b": null}]}),
         json!({"a": "x"}),
         json!(null),
+        json!({"a": [{"b": 2, "c": [3]}, {"b": 1}]}),   // a by-function that succeeds here fails midway on the second document
     ]
 }
 
-pub const N_E: usize = 15;
-pub const N_D: usize = 4;
+pub const N_E: usize = 16;
+pub const N_D: usize = 5;
 
 #[derive(Clone, Copy, Debug, PartialEq, Eq, Hash)]
 pub enum Op {
@@ -255,9 +257,11 @@ impl Model for Hist {
 /// (recording tree and result), then revisited in reverse, strided, A-B-A and failing-heavy
 /// orders; every revisit must reproduce the recorded observation.
 pub fn long_history_ladder(k: usize) -> (u64, Option<(String, String, String)>) {
-    let doc = value_to_var(&json!({"a": {"b": [1, 2, 3]}, "rows": [{"c": 1}, {"c": 2}], "s": "x"}));
+    let doc = value_to_var(&json!({"a": {"b": [1, 2, 3]}, "rows": [{"c": 1}, {"c": 2}], "s": "x", "mixed": [{"c": 3, "id": "stale"}, {"c": "x"}, {"c": 2}]}));
     let exprs: Vec<String> = (0..k)
-        .map(|i| match i % 8 {
+        .map(|i| match i % 10 {
+            8 => format!("sort_by(mixed, &c)[{}]", i % 3),                // a by-function that fails at its second element
+            9 => format!("{{a: abs('{}'), b: length(`1`), c: nosuch(@)}}", i % 4), // several failing values in one multi-select
             6 => format!("sort_by(rows, &abs(s))[{}]", i % 3),           // fails inside an expression reference
             7 => format!("rows[*].abs(@) | [{}]", i % 3),                 // fails below a projection
             0 => format!("a.b[{}]", i % 5),
@@ -289,7 +293,7 @@ pub fn long_history_ladder(k: usize) -> (u64, Option<(String, String, String)>) 
     orders.push((0..k).flat_map(|i| vec![3 + 6 * (i % (k / 6).max(1)), i]).map(|i| i % k).collect());
     // failing-heavy: before every revisit, the two expressions of the same block that fail inside an expression
     // reference and below a projection
-    orders.push((0..k).flat_map(|i| vec![(i / 8) * 8 + 6, (i / 8) * 8 + 7, (i / 8) * 8 + 3, i]).filter(|&i| i < k).collect());
+    orders.push((0..k).flat_map(|i| vec![(i / 10) * 10 + 6, (i / 10) * 10 + 7, (i / 10) * 10 + 8, (i / 10) * 10 + 3, i]).filter(|&i| i < k).collect());
     orders.push((0..k).collect());
     for (oi, order) in orders.iter().enumerate() {
         for &i in order {
